@@ -85,6 +85,13 @@ def script(case):
     return '\n'.join(L) + '\n'
 
 
+def p_dirarg(events):
+    """directory= argument of the installed executable (its run-time
+    dependencies are placed relative to it)"""
+    return [e for e in events if e['ev'] == 'Item' and
+            e['kind'] == 'exe'][0]['dirarg']
+
+
 def listing(root):
     out = []
     for dp, dns, fns in os.walk(root):
@@ -219,6 +226,25 @@ def run_case(case):
                                          exe_dirarg + ['lib', 'inner']},
                                         {'root': 'libdir', 'comps':
                                          exe_dirarg + ['lib']}]})
+        # every installed shared object, also those installed only as run-time
+        # dependencies: no build-directory or $ORIGIN entry; the library that
+        # itself needs a project library names that library's installed place
+        for p in tree:
+            full = os.path.join(sroot, *p)
+            if ('.so' in p[-1]) and not os.path.islink(full):
+                r = subprocess.run(['patchelf', '--print-rpath', full],
+                                   capture_output=True, text=True)
+                dirs = [[c for c in d.split('/') if c]
+                        for d in r.stdout.strip().split(':') if d]
+                dirs = [d[len(bcomps):] if d[:len(bcomps)] == bcomps else d
+                        for d in dirs]
+                want = []
+                if p[-1] == 'libmid.so':
+                    want = [{'root': 'libdir', 'comps': p_dirarg(events) +
+                             ['lib', 'inner']}]
+                events.append({'ev': 'Rpath', 'file': p, 'dirs': dirs,
+                               'builddir': [c for c in bld.split('/') if c],
+                               'want': want})
         # the installed program starts with only the installed files at hand
         # (the build directory is moved away; the loader is pointed at the
         # staged library directories because DESTDIR is a staging prefix)
